@@ -60,6 +60,7 @@ let parse_event (line : string) : parsed =
     (match parse_op rest with Some o -> Ev (ERet (n (i_ k), o)) | None -> Special line)
   | "EV" :: ["ParentCancel"] -> Ev EParentCancel
   | "EV" :: ["RunEnter"] -> Ev ERunEnter
+  | "EV" :: ["Entered"] -> Ev EEntered
   | "EV" :: "RunReturn" :: ["nil"] -> Ev (ERunReturn ResNil)
   | "EV" :: "RunReturn" :: ["timeout"] -> Ev (ERunReturn ResTimeout)
   | "EV" :: "RunReturn" :: "err" :: [id] -> Ev (ERunReturn (ResErr (n (i_ id))))
